@@ -213,7 +213,8 @@ def gen_grid(rng):
     out = [rng.randint(1, 3) for _ in range(dim)]
     B = rng.choice([1, 1, 2, 3])
     n = B * prod(out) * dim
-    grid = [rng.randint(-10, 10) / 8 for _ in range(n)]
+    wide = rng.random() < 0.5   # half of the grids reach well outside [-1, 1] (padding modes only matter there)
+    grid = [rng.randint(-20, 20) / 8 if wide else rng.randint(-10, 10) / 8 for _ in range(n)]
     return {'cls': 'GridSamplingOp', 'dim': dim, 'input': inp, 'out': out, 'B': B, 'grid': grid,
             'interp': rng.choice(['bilinear', 'nearest', 'bicubic'] if dim == 2 else ['bilinear', 'nearest']),
             'pad': rng.choice(['zeros', 'border', 'reflection']), 'align': rng.random() < 0.5, 'complex': rng.random() < 0.5,
@@ -224,7 +225,7 @@ def gen_slice(rng):
     n = rng.choice([4, 5, 6])
     return {'cls': 'SliceProjectionOp', 'n': [n, rng.choice([n, n + 1]), n], 'rot': rng.choice(['id', 'x90', 'quat']),
             'quat': [rng.randint(-3, 3) for _ in range(4)] or [0, 0, 0, 1], 'shift': rng.choice([0.0, 1.0, -0.5]),
-            'width': rng.choice([1.0, 2.0, 3.0]), 'complex': rng.random() < 0.5}
+            'width': rng.choice([1.0, 2.0, 3.0]), 'complex': rng.random() < 0.5, 'vol_batch': rng.choice([[], [], [2], [3]])}
 
 
 GENERATORS = {
@@ -294,7 +295,7 @@ def build(cfg):
             q = cfg['quat'] if any(cfg['quat']) else [0, 0, 0, 1]
             rot = Rotation.from_quat(torch.tensor(q, dtype=torch.float64))
         op = ops.SliceProjectionOp(SpatialDimension(*cfg['n']), slice_rotation=rot, slice_shift=cfg['shift'], slice_profile=cfg['width'])
-        return op, list(cfg['n'])
+        return op, [*cfg.get('vol_batch', []), *cfg['n']]
     raise KeyError(cls)
 
 
